@@ -160,7 +160,10 @@ def opClassify (ws : List String) : String :=
         | .error e => if small != .error e then "big" else "clean"
         | .ok m => if small != .ok m then "big" else if indicesInRange m then "clean" else "index"
       let par := match partRead fp 1 none bs with
-        | .error .undefined => "hazard"
+        | .error .undefined =>
+          match rdHeaderPart fp bs with
+          | .ok (hdr, _) => if partCountHazard 1 hdr then "count" else "hazard"
+          | .error _ => "hazard"
         | _ => "clean"
       ser ++ " " ++ par
     | _, _, _ => "bad-op"
